@@ -5,7 +5,8 @@ META = dict(
     coq_targets=['CheckSched.vo'],
     rule="well-formed interleavings of {start generator (3 parameter sets incl. overlapping steps and "
          "an invalid one), advance, close, enter context, exit context, read element, write element, append "
-         "1 / 3 / 1000 elements (also inside contexts and while generators are active)} "
+         "1 / 3 / 1000 elements, truncate by 1 .. 320000 elements (also inside contexts and while generators "
+         "are active)} "
          "for up to 3 generators and 2 nested contexts, random prefixes of length 3..9 completed by "
          "finishing / abandoning the survivors in random order, plus the 6-action schedule that "
          "crashed the pinned tree; each schedule runs in its OWN interpreter on a 4.8 MB int64 array; "
@@ -54,7 +55,7 @@ def gen(ctx):
         acts, gst, depth, probe = [], [], 0, []
         curlen = N
         for _ in range(r.randint(3, 9)):
-            opts = ['read', 'write', 'grow', 'hide', 'readerr']
+            opts = ['read', 'write', 'grow', 'shrink', 'hide', 'readerr']
             if len(gst) < 3: opts += ['start', 'start']
             live = [i for i, s in enumerate(gst) if s != 'done']
             if live: opts += ['advance'] * 4 + ['close']
@@ -72,15 +73,24 @@ def gen(ctx):
             elif k in ('exit', 'exitexc'):
                 acts.append([k]); depth -= 1
             elif k == 'read':
-                acts.append(['read', r.choice([r.randrange(N), curlen - 1])])
+                acts.append(['read', r.choice([r.randrange(curlen), curlen - 1])])
             elif k in ('hide', 'readerr'):
                 acts.append([k])
             elif k == 'grow':
                 inc = r.choice([1, 3, 1000])
                 curlen += inc
                 acts.append(['grow', inc, curlen])
+            elif k == 'shrink':
+                # truncate_array on the same object, also while generators are suspended and inside
+                # contexts (frames still to come are clipped to the new length)
+                dec = r.choice([1, 1000, 150000, 320000])
+                if curlen - dec < 50000:
+                    dec = 1
+                curlen -= dec
+                acts.append(['shrink', dec, curlen])
             else:
                 i = r.choice([0, 199999, 200000, 260000, N - 1, r.randrange(N)])
+                i = min(i, curlen - 1)
                 acts.append(['write', i, r.randrange(-9, 0)]); probe.append(i)
         # finish the survivors in random order
         todo = [('g', i) for i, s in enumerate(gst) if s != 'done'] + [('c', None)] * depth
@@ -92,7 +102,12 @@ def gen(ctx):
                 acts.append(['close', i])
             else:
                 acts += [['advance', i]] * 8        # exhaust (at most 6 frames + stop)
-        cases.append(dict(n=N, acts=acts, probe=sorted(set(probe))))
+        cases.append(dict(n=N, acts=acts, probe=sorted(set(i for i in probe if i < curlen))))
+    # the array is truncated under a running generator (a bus error on the pinned tree)
+    cases.append(dict(n=N, acts=[['start'] + PARAMS[0], ['advance', 0], ['shrink', N - 250000, 250000], ['advance', 0],
+                                 ['advance', 0], ['advance', 0], ['enter'], ['start'] + PARAMS[1], ['advance', 1],
+                                 ['shrink', 190000, 60000], ['read', 59999], ['advance', 1], ['grow', 3, 60003], ['advance', 1],
+                                 ['advance', 1], ['advance', 1], ['advance', 1], ['exit']], probe=[]))
     # an array without elements: every generator raises at its first next(), every element access raises
     for _ in range(6 if ctx.quick else 60):
         acts, depth, ng = [], 0, 0
@@ -127,7 +142,7 @@ def act_term(a):
     if k == 'enterrw': return "AEnter"
     if k == 'read': return f"(ARead {cz(a[1])})"
     if k == 'write': return f"(AWrite {cz(a[1])} {cz(a[2])})"
-    if k == 'grow': return f"(AResize {cz(a[2])})"
+    if k in ('grow', 'shrink'): return f"(AResize {cz(a[2])})"
     if k == 'hide': return "AOpenFail"
     if k == 'readerr': return "AAccessErr"
     raise ValueError(a)
@@ -158,6 +173,8 @@ def run(ctx):
         for a in case['acts']:
             if a[0] == 'write':
                 lastw[a[1]] = a[2]
+            elif a[0] == 'shrink':
+                lastw = {i: v for i, v in lastw.items() if i < a[2]}
         for i, v in ob['written']:
             if lastw.get(i, i) != v:
                 ctx.fail('write-lost', key, expected=[i, lastw.get(i, i)], observed=[i, v])
@@ -170,6 +187,9 @@ def run(ctx):
                 gens.append(dict(params=a[1:], frames=None))
             elif a[0] == 'grow':
                 curlen = a[2]
+            elif a[0] == 'shrink':
+                curlen = a[2]
+                wr = {i: v for i, v in wr.items() if i < curlen}
             elif a[0] == 'write':
                 wr[a[1]] = a[2]
             elif a[0] == 'close':
@@ -182,7 +202,8 @@ def run(ctx):
                     gdesc['frames'] = list(rr[1]) if rr[0] == 'ok' else []
                 if o[0] == 1 and gdesc['frames']:
                     x, y = gdesc['frames'].pop(0)
-                    want = [1, y - x] + [wr.get(i, i) for i in (x, x + (y - x) // 2, y - 1)]
+                    x, y = min(x, curlen), min(y, curlen)       # a[frame] for the length the array has NOW
+                    want = ([1, y - x] + [wr.get(i, i) for i in (x, x + (y - x) // 2, y - 1)]) if y > x else [1, 0]
                     if o != want:
                         ctx.fail('chunk-not-current', key, expected=want, observed=o)
                         break
